@@ -4,10 +4,11 @@ import itertools
 from vlib import Case, hx, unhx
 
 HARNESS = "rx_driver"
-LEAN_MODULES = ["ViaProofs.C17"]
-REQUIRED_THEOREMS = ["Via.C17_guard", "Via.C17_challenge", "Via.C17_accepts", "Via.b64_roundtrip"]
+LEAN_MODULES = ["ViaProofs.C17", "ViaProofs.Trans.AU"]
+REQUIRED_THEOREMS = ["Via.C17_guard", "Via.C17_challenge", "Via.C17_accepts", "Via.b64_roundtrip",
+                     "Via.AU_isValid", "Via.AU_authenticateValue", "Via.AU_authenticate", "Via.AU_addUserIsInsert"]
 LEVEL = "proof"
-LEVEL_TEXT = ('PROOF that a request is accepted only with the base64 of a registered user:password, every other value gets the challenge, registered credentials encoded by the library are accepted, and decode(encode(x)) = x for all byte strings; correspondence exhaustive over short values, empty users/passwords, protected routes in the router; ASan for memory safety of the C++.')
+LEVEL_TEXT = ('PROOF that a request is accepted only with the base64 of a registered user:password, every other value gets the challenge, registered credentials encoded by the library are accepted, and decode(encode(x)) = x for all byte strings; basic::is_valid, basic::authenticate_value and authentication::authenticate as translated from the current source (tools/cxx2lean_auth.py -> ViaGen/AU) are proved equal to the model and proved never to throw, for every header map and user table (Trans/AU; base64::decode itself is modelled, not translated); correspondence exhaustive over short values, empty users/passwords, protected routes in the router; ASan for memory safety of the C++.')
 RULE = ("Authorization values: every string of length <= N over {'Q','=',' ','d',':'} after 'Basic ', scheme-only and "
         "truncated values, valid and invalid credentials for tables incl. empty password and ':' in password, random "
         "octets; base64 round trip for every length 0..400 (random content) and all 1- and 2-byte strings; the expected "
@@ -15,6 +16,7 @@ RULE = ("Authorization values: every string of length <= N over {'Q','=',' ','d'
         "no exception, 401'; non-trivial = value contains the Basic scheme; distinct = distinct (table, value)")
 TRUSTED_BASE = ["Lean 4.33 kernel", "axioms: propext, Classical.choice, Quot.sound at most",
                 "rx_driver harness (ASan/UBSan/_GLIBCXX_DEBUG; abort or escaped exception is a compared output) + via_model driver",
+                "tools/cxx2lean_auth.py (translation of basic::is_valid / authenticate_value / authenticate; the model is proved equal to it in ViaProofs/Trans/AU)",
                 "Boost base64 iterator adaptors modelled by their observed semantics (differential on all short strings)"]
 ASSUMPTIONS = ["std::unordered_map lookup = association list lookup", "memory safety itself is observed through sanitizers, not proved"]
 EXHAUSTIVE = {"quick": "all strings of length <= 5 over a 5-letter alphabet after 'Basic '",
